@@ -33,7 +33,10 @@ REPO = os.environ.get('VERIF_REPO', '/repo')
 LIST = os.path.join(ROOT, 'tools', 'mutants', 'auto_list.json')
 RESULTS = os.path.join(ROOT, 'tools', 'mutants', 'auto_results.jsonl')
 
-DIST = ['C08', 'C01', 'C09', 'C07', 'C02', 'C04', 'C06', 'C05', 'C03', 'C14', 'C20']
+# first pass: the checks most likely to notice; `run --survivors --all-checks`
+# takes the survivors through the remaining ones
+DIST = ['C08', 'C01', 'C07', 'C09', 'C04']
+DIST_REST = ['C02', 'C06', 'C05', 'C03', 'C14', 'C20']
 FILES = {
     'pb_bss/distribution/cacgmm.py': DIST,
     'pb_bss/distribution/cwmm.py': DIST,
@@ -304,7 +307,10 @@ def run_one(m, jobs, tier='quick'):
         env = dict(os.environ, VERIF_REPO=dst, VERIF_EVIDENCE_DIR=os.path.join(tmp, 'ev'),
                    VERIF_JOBS=str(jobs))
         tried = []
-        for pid in FILES[m['file']]:
+        todo_checks = list(FILES[m['file']])
+        if os.environ.get('AUTO_ALL_CHECKS') and todo_checks[:len(DIST)] == DIST:
+            todo_checks = DIST_REST
+        for pid in todo_checks:
             r = subprocess.run([os.path.join(ROOT, 'check'), pid, '--tier', tier, '--no-regress'],
                                env=env, stdout=subprocess.PIPE, stderr=subprocess.STDOUT, text=True)
             tried.append(pid)
@@ -328,6 +334,8 @@ def cmd_run(args):
     tier = args[args.index('--tier') + 1] if '--tier' in args else 'quick'
     redo = '--redo' in args
     survivors_only = '--survivors' in args
+    if '--all-checks' in args:
+        os.environ['AUTO_ALL_CHECKS'] = '1'
     ms = json.load(open(LIST))
     done = load_results()
     todo = []
